@@ -15,7 +15,10 @@ import (
 	"testing"
 	"time"
 
+	"github.com/cosmos/cosmos-sdk/crypto/keys/secp256k1"
 	sdk "github.com/cosmos/cosmos-sdk/types"
+	slashingtypes "github.com/cosmos/cosmos-sdk/x/slashing/types"
+	stakingkeeper "github.com/cosmos/cosmos-sdk/x/staking/keeper"
 	stakingtypes "github.com/cosmos/cosmos-sdk/x/staking/types"
 
 	"github.com/osmosis-labs/osmosis/osmomath"
@@ -356,7 +359,7 @@ func (d *drv) setup(t *testing.T) {
 		app.SuperfluidKeeper.SetParams(h.Ctx, p)
 	}
 	for i := 0; i < d.c.NVal; i++ {
-		v := h.SetupValidator(stakingtypes.Bonded)
+		v := d.setupValidator(i)
 		d.vals = append(d.vals, v)
 		d.valStr = append(d.valStr, v.String())
 	}
@@ -415,6 +418,43 @@ func (d *drv) setup(t *testing.T) {
 		}
 	}
 	d.ctx = h.Ctx
+}
+
+// setupValidator is apptesting.SetupValidator(Bonded) with a deterministic key, so that validator addresses - and with
+// them the intermediary account addresses and the store order the epoch refresh iterates in - are the same in every run.
+func (d *drv) setupValidator(i int) sdk.ValAddress {
+	h := d.h
+	valPub := secp256k1.GenPrivKeyFromSecret([]byte(fmt.Sprintf("c11-validator-%d", i))).PubKey()
+	valAddr := sdk.ValAddress(valPub.Address())
+	bondAmt := sdk.DefaultPowerReduction
+	selfBond := sdk.NewCoins(sdk.Coin{Amount: bondAmt, Denom: d.bond})
+	h.FundAcc(sdk.AccAddress(valAddr), selfBond)
+	zero := osmomath.ZeroDec()
+	msg, err := stakingtypes.NewMsgCreateValidator(valAddr.String(), valPub, selfBond[0],
+		stakingtypes.Description{Moniker: fmt.Sprintf("v%d", i)}, stakingtypes.NewCommissionRates(zero, zero, zero), osmomath.OneInt())
+	if err != nil {
+		panic(err)
+	}
+	if _, err := stakingkeeper.NewMsgServerImpl(h.App.StakingKeeper).CreateValidator(h.Ctx, msg); err != nil {
+		panic(err)
+	}
+	val, err := h.App.StakingKeeper.GetValidator(h.Ctx, valAddr)
+	if err != nil {
+		panic(err)
+	}
+	val = val.UpdateStatus(stakingtypes.Bonded)
+	if err := h.App.StakingKeeper.SetValidator(h.Ctx, val); err != nil {
+		panic(err)
+	}
+	consAddr, err := val.GetConsAddr()
+	if err != nil {
+		panic(err)
+	}
+	if err := h.App.SlashingKeeper.SetValidatorSigningInfo(h.Ctx, consAddr,
+		slashingtypes.NewValidatorSigningInfo(consAddr, h.Ctx.BlockHeight(), time.Unix(0, 0), false, 0)); err != nil {
+		panic(err)
+	}
+	return valAddr
 }
 
 func (d *drv) accIndex(acc sftypes.SuperfluidIntermediaryAccount) int {
